@@ -7,10 +7,13 @@ for d in sorted(glob.glob('/verif/seeded/*')):
     if not os.path.exists(mf):
         continue
     m = json.load(open(mf))
-    ev = m.get('evaluation', {})
+    first_run = m.get('evaluation', {})
+    ev = m.get('evaluation_after_strengthening') or first_run
     first = ev.get('first_violation', '')
     chk = re.search(r'check=([A-Za-z0-9_\-@\[\]\. ]+?)( scenario=| case=|$)', first)
     caught = 'yes' if ev.get('check_exit') == 1 and ev.get('violation_lines', 0) > 0 else ('inconclusive' if ev.get('check_exit') == 2 else 'NO')
+    if caught == 'yes' and ev is not first_run:
+        caught = 'yes (after strengthening)'
     esc = lambda t: t.replace('|', '/').replace('\n', ' ')
     rows.append((os.path.basename(d), esc(m.get('title', ''))[:90], esc(m.get('needs', '') or '')[:140],
                  caught, (chk.group(1) if chk else '')[:40]))
